@@ -452,7 +452,11 @@ func runC13(c *core.Ctx) {
 		in[14], in[15] = byte(cnt>>8), byte(cnt)
 		got, derr, pan := gUnmarshalOwn(gen.TWCC, in)
 		cs.Eval(1)
-		cs.Distinct(core.Digest(in[:64], []byte{byte(n >> 8), byte(n), byte(spare >> 16)}))
+		head := in
+		if len(head) > 64 {
+			head = head[:64]
+		}
+		cs.Distinct(core.Digest(head, []byte{byte(n >> 8), byte(n), byte(spare >> 16)}))
 		cs.Count("announced-overflow")
 		if pan != "" {
 			cs.Fail("panic/Unmarshal", core.W{"status_count": cnt, "symbol": sym, "input_len": n, "spare_capacity": spare, "input_head_hex": mon.Hex(in, 48), "panic": pan})
